@@ -4,6 +4,7 @@ package lib
 
 import (
 	"bufio"
+	crand "crypto/rand"
 	"crypto/sha256"
 	"encoding/binary"
 	"encoding/hex"
@@ -134,3 +135,37 @@ func SortedKeys[V any](m map[string]V) []string {
 }
 
 func Hex(b []byte) string { return hex.EncodeToString(b) }
+
+// detReader is a deterministic byte stream (SHA-256 in counter mode).
+type detReader struct {
+	mu   sync.Mutex
+	seed [32]byte
+	ctr  uint64
+	buf  []byte
+}
+
+func (d *detReader) Read(p []byte) (int, error) {
+	d.mu.Lock()
+	defer d.mu.Unlock()
+	n := 0
+	for n < len(p) {
+		if len(d.buf) == 0 {
+			var c [8]byte
+			binary.BigEndian.PutUint64(c[:], d.ctr)
+			d.ctr++
+			h := sha256.Sum256(append(d.seed[:], c[:]...))
+			d.buf = h[:]
+		}
+		k := copy(p[n:], d.buf)
+		d.buf = d.buf[k:]
+		n += k
+	}
+	return n, nil
+}
+
+// SeedCryptoRand replaces crypto/rand.Reader by a deterministic stream derived from seed, so that the keys the
+// test framework generates (validators, relayer accounts) are the same in every process that executes the same
+// schedule: "the same history" then really is the same blocks and transactions (C45), and replays are exact.
+func SeedCryptoRand(seed string) {
+	crand.Reader = &detReader{seed: sha256.Sum256([]byte(seed))}
+}
